@@ -1379,6 +1379,37 @@ impl Model {
         merged
     }
 
+    /// DOM Level 1 speaks of the Text nodes "underneath" the element; Level 2 adds the value pieces of attributes.
+    /// Either reading is admitted: where the observation after normalize() lists other value pieces for an
+    /// attribute in the subtree than the model holds, the pieces are adopted — the *value* may not change
+    /// (returned as (attribute, value before, value after) for the caller to judge).
+    pub fn adopt_attr_pieces_under(&mut self, el: Mid, post: &ObsMap) -> Vec<(Mid, String, String)> {
+        let mut out = vec![];
+        let mut todo = vec![el];
+        while let Some(e) = todo.pop() {
+            for c in self.nodes[e].children.clone() {
+                if self.nodes[c].kind == Kind::Element {
+                    todo.push(c);
+                }
+            }
+            for a in self.nodes[e].attrs.clone() {
+                let listed: Vec<Key> = match self.key(a).and_then(|k| post.get(&k)) {
+                    Some(o) => o.children.clone(),
+                    None => continue,
+                };
+                let held: Vec<Option<Key>> = self.nodes[a].children.iter().map(|c| self.key(*c)).collect();
+                if held.iter().any(|k| k.is_none()) || held.iter().map(|k| k.unwrap()).collect::<Vec<_>>() == listed {
+                    continue;
+                }
+                let before = self.attr_value(a);
+                self.adopt(a, post);
+                let after = self.attr_value(a);
+                out.push((a, before, after));
+            }
+        }
+        out
+    }
+
     /// CharacterData result per DOM L1 (offsets in Unicode scalar values, counts clipped)
     pub fn data_after(&self, m: Mid, op: &Op) -> Option<String> {
         let d = &self.nodes[m].data;
